@@ -69,6 +69,7 @@ type ddLeaf struct {
 	stop    *ssa.BasicBlock // when ended at a stop block
 	path    []*ssa.BasicBlock
 	panics  bool
+	st      *ddState // the state at the leaf (for evaluating operands of the return afterwards)
 }
 
 type ddEngine struct {
@@ -80,6 +81,77 @@ type ddEngine struct {
 	err      error
 	// descend into module callees that are pure predicates? if nil, calls are leaves/atoms
 	inline func(f *ssa.Function) bool
+	// concreteAtoms: undetermined conditions are keyed with the known values of their operands substituted
+	// (points[i].Time with i = 2 is the atom "...[2]..."), so that a loop over known indexes yields one atom per element
+	concreteAtoms bool
+}
+
+// keyOf: the atom key of condition v in state s.
+func (e *ddEngine) keyOf(s *ddState, v ssa.Value) string {
+	if !e.concreteAtoms {
+		return atomKey(v)
+	}
+	var rec func(v ssa.Value, d int) string
+	rec = func(v ssa.Value, d int) string {
+		if d > 12 {
+			return v.Name()
+		}
+		if _, isConst := v.(*ssa.Const); !isConst {
+			switch a := e.value(s, v); a.k {
+			case kInt:
+				return fmt.Sprint(a.i)
+			case kBool:
+				return fmt.Sprint(a.b)
+			}
+		}
+		switch x := v.(type) {
+		case *ssa.BinOp:
+			return "(" + rec(x.X, d+1) + " " + x.Op.String() + " " + rec(x.Y, d+1) + ")"
+		case *ssa.UnOp:
+			return x.Op.String() + rec(x.X, d+1)
+		case *ssa.Convert:
+			return rec(x.X, d+1)
+		case *ssa.ChangeType:
+			return rec(x.X, d+1)
+		case *ssa.Extract:
+			return fmt.Sprintf("%s#%d", rec(x.Tuple, d+1), x.Index)
+		case *ssa.FieldAddr:
+			return rec(x.X, d+1) + ".f" + fmt.Sprint(x.Field)
+		case *ssa.Field:
+			return rec(x.X, d+1) + ".f" + fmt.Sprint(x.Field)
+		case *ssa.IndexAddr:
+			return rec(x.X, d+1) + "[" + rec(x.Index, d+1) + "]"
+		case *ssa.Index:
+			return rec(x.X, d+1) + "[" + rec(x.Index, d+1) + "]"
+		case *ssa.Alloc:
+			// a local copy (p := points[i]): what the single store put there
+			var st *ssa.Store
+			n := 0
+			if refs := x.Referrers(); refs != nil {
+				for _, r := range *refs {
+					if s2, ok := r.(*ssa.Store); ok && s2.Addr == ssa.Value(x) {
+						st = s2
+						n++
+					}
+				}
+			}
+			if n == 1 {
+				return "&" + rec(st.Val, d+1)
+			}
+		case *ssa.Call:
+			var args []string
+			for _, a := range x.Common().Args {
+				args = append(args, rec(a, d+1))
+			}
+			name := "?"
+			if sc := x.Common().StaticCallee(); sc != nil {
+				name = funcName(sc)
+			}
+			return name + "(" + strings.Join(args, ",") + ")"
+		}
+		return atomKey(v)
+	}
+	return rec(v, 0)
 }
 
 func atomKey(v ssa.Value) string {
@@ -450,7 +522,7 @@ func (e *ddEngine) walk(s *ddState, b, prev *ssa.BasicBlock, steps int) {
 				for _, rv := range x.Results {
 					res = append(res, e.value(s, rv))
 				}
-				e.leaves = append(e.leaves, ddLeaf{atoms: s.atoms, atomVal: s.atomV, ret: x, results: res, path: s.path})
+				e.leaves = append(e.leaves, ddLeaf{atoms: s.atoms, atomVal: s.atomV, ret: x, results: res, path: s.path, st: s})
 				return
 			case *ssa.Panic:
 				e.leaves = append(e.leaves, ddLeaf{atoms: s.atoms, atomVal: s.atomV, panics: true, path: s.path})
@@ -467,7 +539,7 @@ func (e *ddEngine) walk(s *ddState, b, prev *ssa.BasicBlock, steps int) {
 					}
 					break
 				}
-				key := atomKey(x.Cond)
+				key := e.keyOf(s, x.Cond)
 				if chosen, ok := s.atoms[key]; ok {
 					if chosen {
 						prev, b = b, b.Succs[0]
